@@ -242,11 +242,8 @@ def _check_case(case):
 
 
 def _isint(s):
-    try:
-        int(s)
-        return True
-    except (TypeError, ValueError):
-        return False
+    # an X12 count: digits (int() alone would also take '+1', '1_0', ' 1')
+    return isinstance(s, str) and re.fullmatch(r'[0-9]{1,18}', s) is not None
 
 
 def _has_delim(v):
